@@ -20,8 +20,8 @@ from ..prog import DIALECT_CLASSES, registry
 PROP = "C06"
 LEVEL = "exploration"
 RULE = ("exhaustive: every (parent, position, child) triple over 17 node kinds x 7 leaf kinds, and every depth-2 composition "
-        "of + - * / unary-minus and of AND/OR/NOT over comparisons; sampled depth-3 compositions (all of them on the thorough "
-        "tier) and seeded random trees to depth 7; each under six dialect contexts in bare / select-list / WHERE position. "
+        "of + - * / unary-minus and of AND/OR/NOT over comparisons; sampled depth-3 compositions (48k quick / 3M thorough) "
+        "and seeded random trees to depth 7; each under six dialect contexts in bare / select-list / WHERE position. "
         "non-trivial = the tree has at least one compound child; distinct = canonical tree")
 ASSUMPTIONS = [
     "reference precedence: OR < XOR < AND < NOT < comparison/IS/IN/BETWEEN/LIKE < + - < * / < unary minus, binary levels "
@@ -167,18 +167,8 @@ def cases(tier, seed, shard, nshards):
     rnd = random.Random("C06:%d:%d" % (seed, shard))
     d2 = arith_set(names, 2)
     b2 = bool_set(names, 2)
-    if tier == "thorough":
-        # every depth-3 arithmetic composition: op x depth-2 x depth-2
-        for o in "+-*/":
-            for a in d2:
-                for b in d2:
-                    k += 1
-                    if k % nshards == shard:
-                        names.n = 0
-                        yield {"k": "arith3", "tree": {"t": "bin", "o": o, "l": a(), "r": b()}}
-        n3 = 0
-    else:
-        n3 = 48000 // nshards
+    # depth-3 compositions: op x depth-2 x depth-2 is ~2*10^8 trees, so they are sampled (seeded) on both tiers
+    n3 = (48000 if tier == "quick" else 3000000) // nshards
     for _ in range(n3):
         names.n = 0
         if rnd.random() < 0.7:
